@@ -39,6 +39,12 @@ PROPS["C08"] = {
     },
 }
 
+# C07 names tick and process as separate operations: histories in which expiries wait for their processing step (several events
+# elapsed, deletes in between) are explored with the C08 harness, whose task-level alphabet has service and process as events of their own
+PROPS["C07"]["jobs"]["quick"] += [C08(0, depth=40), C08(1, depth=40), C08(2, depth=6, deadline=60)]
+PROPS["C07"]["jobs"]["thorough"] += [C08(0, depth=40), C08(1, depth=40), C08(3, depth=40), C08(4, depth=40), C08(2, depth=10, deadline=900, max_states=40000000)]
+PROPS["C07"]["text"] += " Deferred processing - ticks served without a processing step, so that several events wait in the elapsed list while actions are created and deleted - is covered by the C08 exploration (task-level events create / delete / service / process on pools 1..3, lockstep expiry accounting and pool conservation), which is part of this check as well."
+
 SC3 = ["CO_VERIF_SDO_BUF_SEG=3"]
 REAL1K = ["SDO_DS2=1000"]
 TWO3 = ["CO_SSDO_N=2", "CO_VERIF_SDO_BUF_SEG=3"]
